@@ -1,5 +1,5 @@
 SPECIFICATION Spec
-CONSTANTS NG = 3 Keys = {1, 2} Rounds = 2 Modes = {"w", "r"} WRels = {"unlock"} RRels = {"runlock"} PlainDelete = FALSE Revalidate = FALSE
+CONSTANTS NG = 3 Keys = {1, 2} Rounds = 2 Modes = {"w", "r"} WRels = {"unlock"} RRels = {"runlock"} PlainDelete = FALSE Revalidate = FALSE SafeDelR = FALSE
 INVARIANTS Contract HoldsCurrent
 PROPERTY AllFinish
 CHECK_DEADLOCK FALSE
